@@ -1,7 +1,8 @@
 """C01 — the matrix-triple-product DFT equals the defining Fourier sum and is invertible.
 
 Tie: Model/Fourier.lean (`dft2`, `idft2`, hand model of lentil/fourier.py, generic in the value type) is run at
-complex doubles by the driver (ops c01.dft2 / c01.idft2 / c01.roundtrip) and compared with the real
+complex doubles by the driver (ops c01.dft2 / c01.idft2 / c01.roundtrip; c01.out runs the out= buffer model of
+Model/FourierOut.lean and its outcome — written / TypeError / ValueError — is compared with the real call's) and compared with the real
 lentil.fourier.dft2 / idft2; the theorems of Props/C01.lean are about the very same definitions at K = ℂ, R = ℝ.
 Oracle: extended-precision (np.longdouble) evaluation of the defining double sum, the round trip and Parseval."""
 import numpy as np
@@ -11,29 +12,30 @@ from vlib import fbits, bitsf
 LEVEL_TEXT = ('Lean 4 theorems about the executable model of fourier.dft2/idft2 instantiated at ℂ/ℝ; the model is proved equal to the wiring regenerated from fourier.py on every run (centring, which offset/shift/sampling feeds which matrix factor, .T, product order, unitary factor, idft2 plumbing); for all shapes, real '
               'samplings α_r ≠ α_c, real shifts, integer offsets and both flags: the triple product equals the defining double sum '
               'with factor √|α_r α_c| exactly when unitary; linearity; zero-padded embedding = sub-array with offset; shift = input phase ramp; idft2 equals its own defining sum (any sampling, shape, shift, both flags); on a full or oversampled period (α = 1/K, K ≥ m, same flag) '
-              'idft2 ∘ dft2 = id, and under the unitary flag dft2 and idft2 conserve Σ|·|² (roots-of-unity orthogonality). The '
+              'idft2 ∘ dft2 = id; with integer offsets forward, an integer shift back and any real forward shift the full-period round trip is the circularly rolled input times the shift\'s phase ramp (idft2_dft2_full_period_rolled); under the unitary flag dft2 and idft2 conserve Σ|·|² (roots-of-unity orthogonality); out= of dft2 in a buffer model (guard regenerated, np.dot\'s acceptance condition by hand): which buffers are written, and that a written buffer holds the values of a fresh allocation. The '
               'same model definitions are run at complex doubles against the real functions on every check.')
 LEVEL_NOTE = ('Trusted: Lean kernel + Mathlib; that np.dot/np.outer/np.exp compute the sums/products/exponentials the hand model '
               'writes (checked differentially to 1e-9 relative, not proved); floating-point rounding is not modelled. The out= '
-              'clause is carried by the correspondence and the oracle only (a functional model has no buffers).')
+              'clause: dft2_out_buffer / dft2_out_accepted_iff are about a buffer model whose acceptance condition (exactly complex128, shape (M, N), C-contiguous by strides, writeable) is NumPy\'s np.dot(out=) contract written by hand — trusted, and compared with the real outcome on every generated buffer (op c01.out); out=f (aliasing), alignment and idft2(out=) have no model: correspondence and oracle only.')
 TECHNIQUE = 'Lean 4 proof (Finset sums, Complex.exp, primitive roots of unity) over a generic executable model + differential correspondence'
 GEN = ['FourierWiring', 'Extent', 'FieldIdx', 'FieldMerge', 'FieldDispatch']
 OPS = ['C01']
 RULE = ('cases: dft2 / idft2 with input and output shapes drawn independently from 1..7 (thorough 1..12 with a 5 % tail up to 16; forced 1x1, single row/column, '
         'even/odd, non-square), complex Gaussian data, per-axis α drawn independently from {1/n_in, 1/n_out, random in ±(0.01,0.6)}, '
-        'real shifts in [-3,3], integer offsets in [-9,9], both flags, scalar / pair / default forms of alpha, shape, shift, offset, complex / float / int64 input, with and without out= (incl. a real buffer that must be refused), the call made on the caller\'s own array, full and oversampled round trips, C / Fortran / strided / read-only inputs, out= buffers NumPy may refuse (Fortran-ordered, strided, complex64, wrong shape: an exception or the right values, never silently something else), bursts of repeated shapes with fresh '
+        'real shifts in [-3,3], integer offsets in [-9,9], both flags, scalar / pair / default forms of alpha, shape, shift, offset, complex / float / int64 input, with and without out= (incl. float64 / int64 buffers that must be refused with TypeError), the call made on the caller\'s own array, full and oversampled round trips, C / Fortran / strided / read-only inputs, out= buffers of every class dft2\'s guard or np.dot(out=) distinguishes (Fortran-ordered — accepted when a single row/column —, strided, read-only, complex64, clongdouble, object, wrong shape, transposed, 1-D, complex64 of the wrong shape: the buffer model\'s outcome must be the real one; for the oracle an exception or the right values, never silently something else), full-period round trips of which half carry integer offsets forward and an integer shift back and a quarter a real forward shift too (drawn from a sub-stream seeded by the case\'s first sample), bursts of repeated shapes with fresh '
         'offsets (coordinate cache); plus full-period round trips. distinct = (kind, shapes, α class per axis, shift/offset zero-ness, '
         'flags) signature with values; non-trivial = outside the region the test-suite samples (square α = 1/n isotropic, zero '
         'shift and offset, fresh allocation) A ≈5 % sample (search tier: a leading block of 260 + a >32-key cache-churn sequence) comes from an extremes stream: samplings within 3e-5 … one ulp of 1/n on centred same-shape transforms, in-place out=f, 1-D-like arrays of up to 1025 rows (quick ≤ 100), data at 1e-150 … 1e150, int8…uint32 inputs at their limits, shifts within 1e-9 of integers, shifts to 1e3, offsets to ±1000, samplings 1e-9 … 10; all tolerances are relative to Σ|f|.')
-TRUSTED = ['np.dot / np.outer / np.exp / np.conj / np.multiply(out=) compute the products, sums and exponentials written in '
+TRUSTED = ['np.dot(A, B, out=buf) accepts buf exactly when it is a writeable, aligned, C-contiguous complex128 array of the result\'s shape and raises ValueError otherwise; np.can_cast(complex, dtype) is true for complex128 / clongdouble / object and false for complex64 / float64 / int64 (Model/FourierOut.lean dotAccepts, BufDtype.canCastComplex: written by hand, compared with the real outcome on every generated buffer)',
+           'np.dot / np.outer / np.exp / np.conj / np.multiply(out=) compute the products, sums and exponentials written in '
            'Model/Fourier.lean (observed through the 1e-9 relative tolerance of the correspondence, not proved)',
            'functools.lru_cache on _dft2_coords returns the arrays it was given (history independence is only observed: bursts of '
            'repeated shapes in the generator)']
-UNPROVEN = ['out=: proved in a buffer model (dft2_out_buffer: real buffers refused, any other buffer ends up holding the values of a fresh allocation and is returned; guard regenerated) — but the in-place call out=f (buffer aliasing the input) is outside that model: it relies on NumPy evaluating E1.dot(f) before writing, observed by the in-place correspondence cases only',
-            'inversion is claimed for zero shift and offset only (with a shift the round trip returns a rolled, phased copy: no theorem describes it); '
-            'Parseval holds for any shift and offset' ]
+UNPROVEN = ['out=: the theorems are about a buffer model; its np.dot(out=) acceptance condition is NumPy\'s contract written by hand (trusted, observed by c01.out on every generated buffer), only dft2\'s own dtype guard and "the result is the buffer" are regenerated. Not in the model: the in-place call out=f (buffer aliasing the input; relies on NumPy evaluating E1.dot(f) before writing — in-place correspondence cases only), alignment, non-2-D or empty results, and idft2(out=) (conj/divide written into the buffer: differential and oracle only)',
+            'the rolled round trip is proved on a full period only (α = 1/m, 1/n, output shape = input shape); with an oversampled period and offsets/shifts no theorem describes it and it is not generated; a non-integer inverse shift has no theorem; '
+            'Parseval holds for any shift and offset']
 ASSUMPTIONS = ['shapes are at least 1x1; α, shifts real; offsets integers; inversion/Parseval only claimed on a full period '
-               '(α = 1/m, 1/n, output shape = input shape, zero shift/offset for the inversion) with the same flag on both sides']
+               '(α = 1/m, 1/n, output shape = input shape; zero shift/offset for idft2 ∘ dft2 = id, integer offsets and integer inverse shift for the rolled form) with the same flag on both sides; out= buffers are aligned and do not overlap the input (except the in-place cases, oracle only)']
 
 LD = np.longdouble
 PI_LD = LD(4) * np.arctan(LD(1))
@@ -78,9 +80,10 @@ def _case(rng, kmax, prev=None):
         per = list(shape)
         if rng.integers(0, 2):       # oversampled period: forward onto K x L >= shape, inverse back onto the input shape
             per = [shape[0] + int(rng.integers(0, 4)), shape[1] + int(rng.integers(0, 4))]
-        return {'kind': 'round', 'shape': list(shape), 'oshape': list(shape), 're': re, 'im': im, 'period': per,
-                'alpha': [1.0 / per[0], 1.0 / per[1]], 'aclass': ['1/n', '1/n'], 'shift': [0.0, 0.0], 'offset': [0, 0],
-                'unitary': unitary, 'out': bool(rng.integers(0, 2)), 'layout': ['C', 'C', 'F', 'strided', 'readonly'][int(rng.integers(0, 5))]}
+        c = {'kind': 'round', 'shape': list(shape), 'oshape': list(shape), 're': re, 'im': im, 'period': per,
+             'alpha': [1.0 / per[0], 1.0 / per[1]], 'aclass': ['1/n', '1/n'], 'shift': [0.0, 0.0], 'offset': [0, 0],
+             'unitary': unitary, 'out': bool(rng.integers(0, 2)), 'layout': ['C', 'C', 'F', 'strided', 'readonly'][int(rng.integers(0, 5))]}
+        return _roll_variant(c)
     ar, cr = _alpha(rng, shape[0], oshape[0]); ac, cl = _alpha(rng, shape[1], oshape[1])
     if rng.integers(0, 6) == 0:      # full period, so that Parseval is also evaluated on these kinds
         oshape = shape; ar, ac, cr, cl = 1.0 / shape[0], 1.0 / shape[1], '1/n', '1/n'; unitary = True
@@ -102,8 +105,60 @@ def _case(rng, kmax, prev=None):
     if not any(im) and rng.integers(0, 2): dtype = 'int' if all(x == round(x) for x in re) else 'float'
     outk = ['none', 'none', 'ok', 'ok', 'float', 'fortran', 'strided', 'complex64', 'wrongshape'][int(rng.integers(0, 9))] if rng.integers(0, 2) else 'none'
     layout = ['C', 'C', 'C', 'F', 'strided', 'readonly'][int(rng.integers(0, 6))]
+    outk = _refine_out(outk, shape, oshape, unitary)
     return {'kind': kind, 'shape': list(shape), 'oshape': list(oshape), 're': re, 'im': im, 'alpha': [ar, ac], 'aclass': [cr, cl],
             'shift': shift, 'offset': offset, 'unitary': unitary, 'out': outk == 'ok', 'out_kind': outk, 'forms': forms, 'dtype': dtype, 'layout': layout}
+
+def _refine_out(outk, shape, oshape, unitary):
+    """more buffer classes without consuming the main random stream (so that existing seeds keep their cases): the variant is a
+    function of the case's shapes. Every class np.dot(out=) or dft2's guard distinguishes is reached: Fortran order (accepted for a
+    single row / column / 1x1), strided, read-only, complex64, clongdouble, object, float64, int64, wrong shape, transposed, 1-D,
+    complex64 of the wrong shape (guard before np.dot)."""
+    v = (shape[0] * 5 + shape[1] * 3 + oshape[0] * 2 + oshape[1] + int(unitary))
+    if outk == 'strided': return ['strided', 'readonly'][v % 2]
+    if outk == 'complex64': return ['complex64', 'clongdouble', 'object', 'complex64-wrongshape'][v % 4]
+    if outk == 'wrongshape': return ['wrongshape', 'onedim', 'transposed' if oshape[0] != oshape[1] else 'wrongshape'][v % 3]
+    if outk == 'float': return ['float', 'int'][v % 2]
+    return outk
+
+BUFFER_KINDS = ('ok', 'float', 'int', 'fortran', 'strided', 'readonly', 'complex64', 'clongdouble', 'object', 'complex64-wrongshape',
+                'wrongshape', 'onedim', 'transposed')
+
+def _make_buf(c):
+    """the caller's out= buffer of the case (pre-filled, so that 'whatever it held' is exercised)"""
+    M, N = c['oshape']; k = c.get('out_kind', 'ok' if c['out'] else 'none')
+    mk = {'ok': lambda: np.full((M, N), 7.5 - 2.5j, dtype=complex),
+          'float': lambda: np.zeros((M, N), dtype=float), 'int': lambda: np.zeros((M, N), dtype=np.int64),
+          'fortran': lambda: np.full((M, N), 7.5 - 2.5j, dtype=complex, order='F'),
+          'strided': lambda: np.zeros((M, 2 * N), dtype=complex)[:, ::2],
+          'readonly': lambda: _ro(np.zeros((M, N), dtype=complex)),
+          'complex64': lambda: np.zeros((M, N), dtype=np.complex64), 'clongdouble': lambda: np.zeros((M, N), dtype=np.clongdouble),
+          'object': lambda: np.zeros((M, N), dtype=object), 'complex64-wrongshape': lambda: np.zeros((M + 1, N), dtype=np.complex64),
+          'wrongshape': lambda: np.zeros((M + 1, N), dtype=complex), 'onedim': lambda: np.zeros((M * N,), dtype=complex),
+          'transposed': lambda: np.zeros((N, M), dtype=complex)}
+    return mk[k]()
+
+def _ro(a):
+    a.flags.writeable = False; return a
+
+def _buf_desc(b):
+    """what the buffer model is told about the buffer: dtype name, shape, strides in elements, writeable"""
+    names = {np.dtype(complex): 'complex128', np.dtype(np.complex64): 'complex64', np.dtype(np.clongdouble): 'clongdouble',
+             np.dtype(float): 'float64', np.dtype(np.int64): 'int64', np.dtype(object): 'object'}
+    return {'dtype': names[b.dtype], 'shape': [int(x) for x in b.shape], 'strides': [int(x // b.itemsize) for x in b.strides],
+            'writeable': bool(b.flags.writeable)}
+
+def _roll_variant(c):
+    """half of the full-period round trips carry integer offsets forward and an integer shift back (a circular roll), half of those a
+    real forward shift as well (a phase ramp on top): idft2_dft2_full_period_rolled. Drawn from a sub-stream seeded by the case's
+    first sample so that the main stream — and with it the cases of existing seeds — is unchanged."""
+    if c['period'] != c['shape']: return c
+    sub = np.random.default_rng(fbits(c['re'][0]) % (2 ** 63))
+    if sub.integers(0, 2) == 0: return c
+    c['offset'] = [int(sub.integers(-4, 5)), int(sub.integers(-4, 5))]
+    c['ishift'] = [int(sub.integers(-4, 5)), int(sub.integers(-4, 5))]
+    if sub.integers(0, 2): c['shift'] = [float(sub.uniform(-2, 2)), float(sub.uniform(-2, 2))]
+    return c
 
 def _blank(kind, shape, oshape, re, im, alpha, unitary, **kw):
     c = {'kind': kind, 'shape': list(shape), 'oshape': list(oshape), 're': re, 'im': im, 'alpha': list(alpha), 'aclass': ['free', 'free'],
@@ -184,7 +239,7 @@ def _full_period(c):
 def signature(c):
     z = lambda v: 'z' if v[0] == 0 and v[1] == 0 else 'nz'
     return (f"{c['kind']} {c['shape']}->{c['oshape']} a={c['alpha']} sh={c['shift']} off={c['offset']} "
-            f"u={int(c['unitary'])} out={c.get('out_kind', int(c['out']))} forms={sorted(c.get('forms', {}).items())} lay={c.get('layout')} per={c.get('period')} dt={c.get('dtype', 'complex')}")
+            f"u={int(c['unitary'])} out={c.get('out_kind', int(c['out']))} forms={sorted(c.get('forms', {}).items())} lay={c.get('layout')} per={c.get('period')} ish={c.get('ishift')} dt={c.get('dtype', 'complex')}")
 
 def nontrivial(c):
     sq = c['shape'][0] == c['shape'][1] and _full_period(c)
@@ -208,9 +263,11 @@ def tags(c):
     for k, v in c.get('forms', {}).items(): t.append(f'form:{k}={v}')
     if c.get('layout', 'C') != 'C': t.append('layout:' + c['layout'])
     if c.get('period', c['shape']) != c['shape']: t.append('oversampled-roundtrip')
-    if c.get('out_kind') in ('fortran', 'strided', 'complex64', 'wrongshape'): t.append('out=' + c['out_kind'])
+    if c.get('out_kind') in BUFFER_KINDS[3:]: t.append('out=' + c['out_kind'])
+    if c['kind'] == 'round' and (c['offset'] != [0, 0] or c.get('ishift', [0, 0]) != [0, 0]): t.append('roundtrip:rolled')
+    if c['kind'] == 'round' and c['shift'] != [0.0, 0.0]: t.append('roundtrip:phased')
     if c.get('dtype', 'complex') != 'complex': t.append('dtype:' + c['dtype'])
-    if c.get('out_kind') == 'float': t.append('out=real-buffer')
+    if c.get('out_kind') in ('float', 'int'): t.append('out=real-buffer')
     return t
 
 def shrink(c):
@@ -219,6 +276,7 @@ def shrink(c):
     if c.get('dtype', 'complex') != 'complex': yield {**c, 'dtype': 'complex'}
     if c['shift'] != [0.0, 0.0]: yield {**c, 'shift': [0.0, 0.0]}
     if c['offset'] != [0, 0]: yield {**c, 'offset': [0, 0]}
+    if c.get('ishift', [0, 0]) != [0, 0]: yield {**c, 'ishift': [0, 0]}
     if any(x != round(x) for x in c['re'] + c['im']):
         yield {**c, 're': [float(round(x)) for x in c['re']], 'im': [float(round(x)) for x in c['im']]}
     if any(c['im']): yield {**c, 'im': [0.0] * len(c['im'])}
@@ -254,9 +312,9 @@ def _call(fn, c, x, **kw):
     info = {'arg_untouched': bool(np.array_equal(x, x0) and x.dtype == x0.dtype)}
     ok = c.get('out_kind', 'ok' if c['out'] else 'none')
     if ok == 'ok':
-        buf = np.full(tuple(c['oshape']), 7.5 - 2.5j, dtype=complex)
+        buf = _make_buf(c)
         r = fn(x, out=buf, **kw)
-        info.update({'same_obj': bool(r is buf), 'out_diff': float(np.max(np.abs(np.asarray(r) - fresh))) if r.shape == fresh.shape else -1.0,
+        info.update({'out_outcome': 'ok', 'same_obj': bool(r is buf), 'out_diff': float(np.max(np.abs(np.asarray(r) - fresh))) if r.shape == fresh.shape else -1.0,
                      'buf_diff': float(np.max(np.abs(buf - fresh))) if buf.shape == fresh.shape else -1.0,
                      'arg_untouched': bool(info['arg_untouched'] and np.array_equal(x, x0))})
         fresh = r
@@ -268,25 +326,27 @@ def _call(fn, c, x, **kw):
         info.update({'same_obj': bool(r is y), 'out_diff': float(np.max(np.abs(np.asarray(r) - fresh))) if r.shape == fresh.shape else -1.0,
                      'buf_diff': float(np.max(np.abs(y - fresh))) if y.shape == fresh.shape else -1.0})
         fresh = r
-    elif ok in ('fortran', 'strided', 'complex64', 'wrongshape'):
-        # buffers NumPy may refuse: either an exception, or the right values in the buffer — never silently something else
-        M, N = c['oshape']
-        buf = {'fortran': lambda: np.zeros((M, N), dtype=complex, order='F'), 'strided': lambda: np.zeros((M, 2 * N), dtype=complex)[:, ::2],
-               'complex64': lambda: np.zeros((M, N), dtype=np.complex64), 'wrongshape': lambda: np.zeros((M + 1, N), dtype=complex)}[ok]()
+    elif ok in BUFFER_KINDS[3:]:
+        # buffers dft2's guard or np.dot(out=) may refuse: either an exception, or the right values in the buffer — never silently
+        # something else; which of the two is what the buffer model predicts (compare)
+        buf = _make_buf(c)
         try:
             r = fn(x, out=buf, **kw)
             info['exotic'] = {'raised': None, 'same_obj': bool(r is buf), 'dtype': str(buf.dtype),
-                              'diff': float(np.max(np.abs(np.asarray(r) - fresh))) if np.shape(r) == fresh.shape else -1.0}
+                              'diff': float(np.max(np.abs(np.asarray(r) - fresh))) if np.shape(r) == fresh.shape else -1.0,
+                              'buf_diff': float(np.max(np.abs(buf - fresh))) if np.shape(buf) == fresh.shape else -1.0}
         except Exception as e:
             info['exotic'] = {'raised': type(e).__name__}
-    elif ok == 'float':
-        buf = np.zeros(tuple(c['oshape']), dtype=float)
+        info['out_outcome'] = info['exotic']['raised'] or 'ok'
+    elif ok in ('float', 'int'):
+        buf = _make_buf(c)
         try:
             fn(x, out=buf, **kw); info['real_out'] = 'accepted'
         except TypeError:
             info['real_out'] = 'TypeError'
         except Exception as e:
             info['real_out'] = type(e).__name__
+        info['out_outcome'] = 'ok' if info['real_out'] == 'accepted' else info['real_out']
     return fresh, info
 
 def _input(c):
@@ -322,9 +382,13 @@ def impl(c):
     else:
         f0 = f.copy()
         per = c.get('period', c['shape'])
-        F = LF.dft2(f, tuple(c['alpha']), shape=tuple(per), unitary=c['unitary']) if per != c['shape'] else LF.dft2(f, tuple(c['alpha']), unitary=c['unitary'])
+        fw = {}
+        if c['shift'] != [0.0, 0.0]: fw['shift'] = tuple(c['shift'])
+        if c['offset'] != [0, 0]: fw['offset'] = tuple(c['offset'])
+        F = LF.dft2(f, tuple(c['alpha']), shape=tuple(per), unitary=c['unitary'], **fw) if per != c['shape'] else LF.dft2(f, tuple(c['alpha']), unitary=c['unitary'], **fw)
         F0 = F.copy()
         kw = {'shape': tuple(c['shape'])} if per != c['shape'] else {}
+        if c.get('ishift', [0, 0]) != [0, 0]: kw['shift'] = tuple(c['ishift'])
         g, info = _call(LF.idft2, c, F, alpha=tuple(c['alpha']), unitary=c['unitary'], **kw)
         info['arg_untouched'] = bool(info['arg_untouched'] and np.array_equal(f, f0) and np.array_equal(F, F0))
         res = {'F': _pack(F0), 'g': _pack(g), **info}
@@ -336,9 +400,16 @@ def _arr_req(c):
 
 def requests(c, io):
     base = {**_arr_req(c), 'alpha': [fbits(a) for a in c['alpha']], 'unitary': c['unitary']}
-    if c['kind'] == 'round': return [{'op': 'c01.roundtrip', **base, 'period': c.get('period', c['shape'])}]
+    if c['kind'] == 'round':
+        return [{'op': 'c01.roundtrip', **base, 'period': c.get('period', c['shape']), 'shift': [fbits(s) for s in c['shift']],
+                 'offset': c['offset'], 'ishift': [fbits(float(s)) for s in c.get('ishift', [0, 0])]}]
     base.update({'oshape': c['oshape'], 'shift': [fbits(s) for s in c['shift']]})
-    if c['kind'] == 'dft2': return [{'op': 'c01.dft2', **base, 'offset': c['offset']}]
+    if c['kind'] == 'dft2':
+        rq = [{'op': 'c01.dft2', **base, 'offset': c['offset']}]
+        if c.get('out_kind', 'ok' if c['out'] else 'none') in BUFFER_KINDS:
+            # the out= path in the buffer model (Model/FourierOut.lean): dft2's guard, then np.dot's acceptance condition
+            rq.append({'op': 'c01.out', **base, 'offset': c['offset'], 'buf': _buf_desc(_make_buf(c))})
+        return rq
     return [{'op': 'c01.idft2', **base}]
 
 def _tol(c):
@@ -357,6 +428,18 @@ def compare(c, io, mo):
         if a.shape != b.shape: return f'{key}: shape impl {a.shape} model {b.shape}'
         d = float(np.max(np.abs(a - b))) if a.size else 0.0
         if not d <= tol: return f'{key}: max |impl - model| = {d:.3e} > {tol:.1e}'
+    if len(mo) > 1:
+        o = mo[1]
+        if not o.get('ok'): return f"buffer model refused: {o.get('err')}"
+        if o['outcome'] != io.get('out_outcome'):
+            return f"out= ({c.get('out_kind')} buffer {_buf_desc(_make_buf(c))}): buffer model says {o['outcome']}, the real call {io.get('out_outcome')}"
+        if o['outcome'] == 'ok':
+            if not o['is_buffer']: return 'buffer model: result is not the buffer'
+            a, b = _unpack(io['F']), _model_arr(o['B'])
+            same = io['exotic']['same_obj'] if 'exotic' in io else io.get('same_obj')
+            if not same: return 'out= accepted: the model returns the buffer, the real call another array'
+            d = float(np.max(np.abs(a - b))) if a.shape == b.shape and a.size else (0.0 if a.shape == b.shape else float('inf'))
+            if not d <= tol: return f'out= buffer contents: max |impl - model| = {d:.3e} > {tol:.1e}'
     return None
 
 
@@ -389,14 +472,27 @@ def _dist(F, re, im):
     if F.size == 0: return 0.0
     return float(np.max(np.hypot(F.real.astype(LD) - re, F.imag.astype(LD) - im)))
 
+def _is_rolled(c): return c['offset'] != [0, 0] or c['shift'] != [0.0, 0.0] or c.get('ishift', [0, 0]) != [0, 0]
+
+def _rolled(c, f):
+    """what the full-period round trip returns (idft2_dft2_full_period_rolled): sample [i, j] is f[x, y] with
+    x = (i - ishift_r - off_r) mod m, y likewise, times exp(2πi((x - m//2 + off_r)·shift_r/m + (y - n//2 + off_c)·shift_c/n))"""
+    if not _is_rolled(c): return f
+    m, n = f.shape; t = c.get('ishift', [0, 0]); o = c['offset']; s = c['shift']
+    x = (np.arange(m) - t[0] - o[0]) % m; y = (np.arange(n) - t[1] - o[1]) % n
+    ph = np.exp(2j * np.pi * np.add.outer((x - m // 2 + o[0]) * s[0] / m, (y - n // 2 + o[1]) * s[1] / n))
+    return f[np.ix_(x, y)] * ph
+
 def oracle(c, io):
     f = _f(c); tol = _tol(c); k = c['kind']
     if not io.get('input_untouched', True): return 'the caller\'s input array was modified'
     ex = io.get('exotic')
     if ex is not None:
-        if ex['raised'] is None and c['out_kind'] == 'complex64': return 'a complex64 out= buffer was accepted: the complex128 result is silently truncated'
-        if ex['raised'] is None and c['out_kind'] == 'wrongshape': return 'an out= buffer of the wrong shape was accepted'
-        if ex['raised'] is None and not (ex['same_obj'] and 0 <= ex['diff'] <= 1e-12 * max(np.sum(np.abs(f)), 1e-300)):
+        if ex['raised'] is None and c['out_kind'] in ('complex64', 'complex64-wrongshape'): return 'a complex64 out= buffer was accepted: the complex128 result is silently truncated'
+        if ex['raised'] is None and c['out_kind'] in ('wrongshape', 'onedim', 'transposed'): return 'an out= buffer of the wrong shape was accepted'
+        if ex['raised'] is None and c['out_kind'] == 'readonly': return 'a read-only out= buffer was written'
+        if ex['raised'] is None and not (ex['same_obj'] and 0 <= ex['diff'] <= 1e-12 * max(np.sum(np.abs(f)), 1e-300)
+                                         and 0 <= ex['buf_diff'] <= 1e-12 * max(np.sum(np.abs(f)), 1e-300)):
             return f"out= ({c['out_kind']} buffer) was accepted but does not hold the result of a fresh allocation (diff {ex['diff']:.3e})"
     if io.get('real_out') not in (None, 'TypeError'):
         return f"a real-valued out= buffer was not refused with TypeError ({io['real_out']}): the complex result cannot be stored in it"
@@ -421,8 +517,9 @@ def oracle(c, io):
     if k == 'round':
         g = _unpack(io['g'])
         if g.shape != f.shape: return f'round trip shape {g.shape} != {f.shape}'
-        d = float(np.max(np.abs(g - f)))
-        if not d <= tol: return f"idft2(dft2(f)) differs from f by {d:.3e} (unitary={c['unitary']}, tol {tol:.1e})"
+        d = float(np.max(np.abs(g - _rolled(c, f))))
+        if not d <= tol: return (f"idft2(dft2(f)) differs from {'the rolled, phased copy of f' if _is_rolled(c) else 'f'} by {d:.3e} "
+                                 f"(unitary={c['unitary']}, offset={c['offset']}, shift={c['shift']}, inverse shift={c.get('ishift', [0, 0])}, tol {tol:.1e})")
         if c['unitary']:
             e_g = float(np.sum(np.abs(g) ** 2)); e_F = float(np.sum(np.abs(F) ** 2))
             if not abs(e_g - e_F) <= 1e-9 * (1 + e_F): return f'unitary idft2 changes the energy: {e_F} -> {e_g}'
